@@ -5,18 +5,28 @@
 pub struct EventChannel<E> { x: core::marker::PhantomData<E> }
 impl<E> EventChannel<E> {
     pub uninterp spec fn view(&self) -> Seq<E>;
+    // Default::default() / EventChannel::new(): nothing written yet
+    #[verifier::external_body]
+    pub fn default() -> (r: Self) ensures r@ == Seq::<E>::empty() { unimplemented!() }
     #[verifier::external_body]
     pub fn single_write(&mut self, event: E)
         ensures final(self)@ == old(self)@.push(event)
     { unimplemented!() }
 }
 // TRUSTED: crate::storage::sync_unsafe_cell::SyncUnsafeCell<T> reached through `&mut self` is plain exclusive access
-// (UnsafeCell::get_mut). The shared-access path (`get()` + raw pointer, used by shared_get_mut) is NOT modelled.
+// (UnsafeCell::get_mut). `get()` is modelled as handing out a shared reference (so `unsafe { &*ptr }` is a reborrow); mutation through
+// it (`&mut *ptr` from `&self`, used by shared_get_mut) exists only under the N3 sequentialisation, where it is rewritten to get_mut().
 #[verifier::external_body]
 #[verifier::reject_recursive_types(T)]
 pub struct SyncUnsafeCell<T> { x: core::marker::PhantomData<T> }
 impl<T> SyncUnsafeCell<T> {
     pub uninterp spec fn inner(&self) -> T;
+    #[verifier::external_body]
+    pub fn new(value: T) -> (r: Self) ensures r.inner() == value { unimplemented!() }
+    #[verifier::external_body]
+    pub fn get(&self) -> (r: &T)
+        ensures *r == self.inner()
+    { unimplemented!() }
     #[verifier::external_body]
     pub fn get_mut(&mut self) -> (r: &mut T)
         ensures *r == old(self).inner(), final(self).inner() == *final(r)
